@@ -802,6 +802,11 @@ class Grid(object):
 
         xyslice = np.ascontiguousarray(np.atleast_2d(xyslice),
                                        dtype=np.float64)
+        if xyslice.ndim != 2 or xyslice.shape[1] != 2:
+            errmess = "Expected xyslice with 2 columns [x, y], "\
+                      + f"got shape {xyslice.shape}."
+            raise ValueError(errmess)
+
         zslice = np.zeros(len(xyslice)).astype(np.float64)
 
         # Run C code
@@ -1693,6 +1698,11 @@ def voronoi(catchment, xypoints):
 
     idxcells_area = np.array(catchment._idxcells_area).astype(np.int64)
     xypoints = np.atleast_2d(xypoints).astype(np.float64)
+    if xypoints.ndim != 2 or xypoints.shape[1] != 2:
+        errmess = "Expected xypoints with 2 columns [x, y], "\
+                  + f"got shape {xypoints.shape}."
+        raise ValueError(errmess)
+
     weights = np.zeros(xypoints.shape[0]).astype(np.float64)
 
     ierr = c_hydrodiy_gis.voronoi(nrows, ncols, xll, yll, csz,
